@@ -630,3 +630,68 @@ func lz4EndRules(src []byte) bool {
 	}
 	return false
 }
+
+// snapInDomain tells whether a block is `uvarint ‖ elements` with every element in the domain of
+// C18_snappy_decodes_any_stream: literals of 1..65536 bytes under their SHORTEST header (tag / 60 / 61),
+// 1-byte-offset copies exactly when 4 <= length <= 11 and offset < 2048, 2-byte-offset copies otherwise;
+// no 4-byte-offset copy, no 3- or 4-byte literal length. (What golang/snappy's emitLiteral / emitCopy write.)
+func snapInDomain(z []byte) bool {
+	_, k := binary.Uvarint(z)
+	if k <= 0 {
+		return false
+	}
+	s := k
+	for s < len(z) {
+		tag := z[s]
+		switch tag & 3 {
+		case 0:
+			x := int(tag >> 2)
+			hdr := 1
+			switch {
+			case x < 60:
+			case x == 60:
+				if s+2 > len(z) {
+					return false
+				}
+				x = int(z[s+1])
+				hdr = 2
+				if x < 60 {
+					return false
+				}
+			case x == 61:
+				if s+3 > len(z) {
+					return false
+				}
+				x = int(z[s+1]) | int(z[s+2])<<8
+				hdr = 3
+				if x < 256 {
+					return false
+				}
+			default:
+				return false
+			}
+			if x+1 > 65536 || s+hdr+x+1 > len(z) {
+				return false
+			}
+			s += hdr + x + 1
+		case 1:
+			if s+2 > len(z) {
+				return false
+			}
+			s += 2 // length 4..11 and offset < 2048 by construction of the tag
+		case 2:
+			if s+3 > len(z) {
+				return false
+			}
+			l := 1 + int(tag>>2)
+			off := int(z[s+1]) | int(z[s+2])<<8
+			if l >= 4 && l <= 11 && off < 2048 {
+				return false // the 1-byte-offset form applies
+			}
+			s += 3
+		default:
+			return false
+		}
+	}
+	return true
+}
